@@ -153,7 +153,7 @@ def run_family(fam, prop, tier, seed, replay=None, extra_harness_args=None):
                 exhaustive = False
             if rnd.get("seed_key"):
                 consts[rnd["seed_key"]] = seed
-            if rnd.get("mc", True):
+            if rnd.get("mc", True) and fam.invariant:
                 rc, out, dt = run_tlc(work, fam.mc_module, mc_cfg(consts, fam.invariant, spec=fam.mc_spec, devs=fam.devs),
                                       workers=fam.mc_workers, timeout=3400, extra=["-continue"], heap="12g")
                 bad = tlc_failed(out)
